@@ -121,10 +121,15 @@ def observe_query(sc, traced=True):
         sb = Builder([])
         sexpr = sb.steps(sc["src"]["path"])
         k = sc["src"]["k"]
-        ms = list(itertools.islice(find_matches(sexpr, doc), k + 1))
+        outer = find_matches(sexpr, doc)          # kept alive: the outer search stays suspended
+        ms = list(itertools.islice(outer, k + 1))
         if len(ms) <= k:
             return "nosrc"
         src = ms[k]
+        for _ in range(sc["src"].get("up", 0)):
+            src = src.parent
+            if src is None:
+                return "nosrc"
     traced = traced and sc.get("traced", True)
     trace = make_trace(log) if traced else None
     b.tracer = trace
